@@ -277,6 +277,7 @@ type poolRun struct {
 	streams     map[int]*heldStream
 	grabs       []*grabbed
 	tickStamp   time.Time // the housekeeping clock when the current operation began
+	ctxCalls    int
 }
 
 type heldStream struct {
@@ -637,6 +638,9 @@ func (r *poolRun) callEnd(k int) {
 	// C15 oracle: housekeeping must not have killed the call
 	if err != nil && !r.killedConns[h.conn] {
 		r.e.fail("C15-busy-connection-closed", fmt.Sprintf("a call in flight on connection %d across housekeeping failed with %v", h.conn, err), r.replay())
+		if r.ctxCalls > 0 {
+			r.e.fail("C19-cancel-harms-other-call", fmt.Sprintf("after %d call(s) had been given up at their context's end, a live call on connection %d was failed with %v by the pool's housekeeping", r.ctxCalls, h.conn, err), r.replay())
+		}
 	}
 	if h.direct {
 		// no Transport.Call around it: lastTime is not refreshed and a failure is not reported to the pool
@@ -737,6 +741,7 @@ func (r *poolRun) ctxCall(a string, deadline bool) {
 	}
 	switch {
 	case ctxErr:
+		r.ctxCalls++
 		if took > 2*time.Second {
 			r.e.fail("C19-ctx-not-prompt", fmt.Sprintf("CallWithContext through the Transport returned %v only after %v", err, took), r.replay())
 		}
@@ -1122,6 +1127,9 @@ func (r *poolRun) script(i int) {
 		case x < 78:
 			r.tick()
 		case x < 84:
+			if r.prop == "C19" && len(r.held) == 0 && r.up(a) {
+				r.callBegin(a) // a live call for CloseIdleConnections to spare
+			}
 			r.closeIdle()
 		case x < 91:
 			if r.up(a) {
